@@ -55,6 +55,8 @@ let dispatch (comp : string) (items : M.item list) : verdict =
   | "PCS" -> VN (M.pcs_check_items items)
   | "TH" -> VB (M.th_check_items items)
   | "JO" -> VB (M.jo_check_items items)
+  | "EX" -> VB (M.ex_check_items items)
+  | "EXD" -> VN (M.ex_diag_items items)
   | _ -> failwith ("unknown component " ^ comp)
 
 let rec int_of_pos (p : M.positive) : int =
